@@ -53,6 +53,10 @@ pub struct Step {
     /// a private input (declared or discovered) whose mtime the command refreshes on every run
     #[serde(default)]
     pub touches: Option<String>,
+    /// 0: inputs joined with spaces ($in); 1: the command uses $in_newline;
+    /// 2: the response file content uses $in_newline
+    #[serde(default)]
+    pub nl: u8,
 }
 
 #[derive(Clone, Debug, Serialize, Deserialize, PartialEq)]
@@ -151,7 +155,7 @@ impl Project {
             s.salt,
             s.decor,
             s.outs[..s.nexp].join(" "),
-            s.exp.join(" ")
+            s.exp.join(if s.nl == 1 { "\n" } else { " " })
         )
     }
     pub fn desc(&self, s: &Step) -> String {
@@ -161,7 +165,7 @@ impl Project {
         // the length varies non-monotonically with the version (a rewrite can be shorter)
         s.rsp
             .as_ref()
-            .map(|r| format!("RSP s{} r{}{} {}", s.id, r.ver, "+".repeat([4usize, 0, 7, 1, 3][(r.ver % 5) as usize]), s.exp.join(" ")))
+            .map(|r| format!("RSP s{} r{}{} {}", s.id, r.ver, "+".repeat([4usize, 0, 7, 1, 3][(r.ver % 5) as usize]), s.exp.join(if s.nl == 2 { "\n" } else { " " })))
     }
     pub fn depfile_path(&self, s: &Step) -> Option<String> {
         if s.depmode == 1 {
@@ -447,7 +451,8 @@ impl Project {
         let plain = self.spell == 0;
         let has_gen = self.has_generator();
         let ninc = if has_gen {
-            2
+            // the generator writes every file of the manifest: they are its outputs
+            self.steps.iter().find(|s| s.generator && !s.removed).map(|s| s.outs.len() - 1).unwrap_or(0)
         } else if plain || r.pct(70) {
             0
         } else {
@@ -521,6 +526,7 @@ impl Project {
         if let Some(b) = &self.builddir {
             texts[0].push_str(&format!("builddir = {}\n", esc_val(b)));
         }
+        let mut dest_of: HashMap<String, usize> = HashMap::new();
         for &oi in &self.order {
             let s = &self.steps[oi];
             if s.removed {
@@ -528,6 +534,9 @@ impl Project {
             }
             let mut sr = root.sub(2, s.id as u64);
             let dest = if ninc == 0 || s.generator { 0 } else { sr.below(ninc + 1) };
+            for o in &s.outs {
+                dest_of.insert(o.clone(), dest);
+            }
             let cont = |sr: &mut Rng| -> &'static str {
                 if !plain && sr.pct(8) {
                     " $\n    "
@@ -555,7 +564,8 @@ impl Project {
                     l.push_str(&sp(o, &mut sr));
                 }
             }
-            let own_rule = !s.phony && (!shared_rule || (!plain && sr.pct(15)));
+            let nl = s.nl == 1 || (s.nl == 2 && s.rsp.is_some());
+            let own_rule = !s.phony && (!shared_rule || (!plain && sr.pct(15)) || nl);
             // a rule without a command is as good as phony
             let nocmd_rule = s.phony && !plain && sr.pct(20);
             let rname = if nocmd_rule {
@@ -608,7 +618,7 @@ impl Project {
                 binds.push(format!("description = D s{}", s.id));
             } else if own_rule {
                 // literal command in a rule of its own, or bound at build level
-                let build_level_cmd = !plain && sr.pct(30);
+                let build_level_cmd = !plain && sr.pct(30) && !nl;
                 let lit = format!(
                     "{} s{} v{} {}",
                     if prefix_var && sr.pct(50) { v("simcmd") } else { "sim".into() },
@@ -631,7 +641,7 @@ impl Project {
                         s.id,
                         lit,
                         v("out"),
-                        v("in"),
+                        if s.nl == 1 { v("in_newline") } else { v("in") },
                         s.id
                     ));
                 }
@@ -640,8 +650,22 @@ impl Project {
                     tgt.push(format!("depfile = {}", esc_val(&self.depfile_path(s).unwrap())));
                 }
                 if let Some(rsp) = &s.rsp {
-                    tgt.push(format!("rspfile = {}", esc_val(&rsp.path)));
-                    tgt.push(format!("rspfile_content = {}", esc_val(&self.rsp_content(s).unwrap())));
+                    if s.nl != 2 {
+                        tgt.push(format!("rspfile = {}", esc_val(&rsp.path)));
+                    }
+                    if s.nl == 2 {
+                        // $in_newline only exists in the scope of a rule's bindings
+                        rule_text.push_str(&format!(
+                            "  rspfile = {}\n  rspfile_content = RSP s{} r{}{} {}\n",
+                            esc_val(&rsp.path),
+                            s.id,
+                            rsp.ver,
+                            "+".repeat([4usize, 0, 7, 1, 3][(rsp.ver % 5) as usize]),
+                            v("in_newline")
+                        ));
+                    } else {
+                        tgt.push(format!("rspfile_content = {}", esc_val(&self.rsp_content(s).unwrap())));
+                    }
                 }
             } else {
                 binds.push(format!("id = s{}", s.id));
@@ -696,10 +720,14 @@ impl Project {
         }
         if !self.defaults.is_empty() {
             let mut dr = root.sub(3, 0);
-            if !plain && self.defaults.len() > 1 && dr.pct(50) {
+            if !plain && dr.pct(50) {
+                // one statement per name; a name may be made a default by the included /
+                // subninja'd file that declares it (defaults accumulate over all files)
                 for d in &self.defaults {
                     let q = esc_path(&respell(d, &mut dr));
-                    texts[0].push_str(&format!("default {}\n", q));
+                    let k = dest_of.get(d).cloned().unwrap_or(0);
+                    let k = if k > 0 && dr.pct(60) { k } else { 0 };
+                    texts[k].push_str(&format!("default {}\n", q));
                 }
             } else {
                 let ds: Vec<String> = self
